@@ -339,6 +339,37 @@ pub fn addr_universe() -> ListUniverse {
             }
         }
     }
+    // related endpoints: the destination is the source with one byte changed (each of the 16, and for IPv4 each of the
+    // 4), and the same with the roles exchanged: a decoder or shortcut that looks at part of an address only (the low
+    // 64 bits, the first word) is wrong exactly when the rest differs
+    for a in &c6 {
+        for k in 0..16usize {
+            let mut d = a.clone();
+            d[k] ^= 0x5a;
+            for (x, y) in [(a, &d), (&d, a)] {
+                let mut h = SIG.to_vec();
+                h.extend_from_slice(&[0x21, 0x21, 0, 36]);
+                h.extend_from_slice(x);
+                h.extend_from_slice(y);
+                h.extend_from_slice(&[0x9c, 0x40, 0x9c, 0x41]);
+                cases.push(h);
+            }
+        }
+    }
+    for a in &c4 {
+        for k in 0..4usize {
+            let mut d = *a;
+            d[k] ^= 0x5a;
+            for (x, y) in [(a, &d), (&d, a)] {
+                let mut h = SIG.to_vec();
+                h.extend_from_slice(&[0x21, 0x11, 0, 12]);
+                h.extend_from_slice(x);
+                h.extend_from_slice(y);
+                h.extend_from_slice(&[0x9c, 0x40, 0x9c, 0x41]);
+                cases.push(h);
+            }
+        }
+    }
     // Unix blocks with realistic path shapes: NUL-terminated paths with bytes after the terminator, abstract names, '@' spelling
     let shapes: Vec<Vec<u8>> = vec![b"/var/run/haproxy.sock".to_vec(), b"/a\0/b".to_vec(), b"\0abstract-7f3a".to_vec(), b"@client-7f3a".to_vec(), b"x\0\0y".to_vec(), vec![b'p'; 108], vec![]];
     for a in &shapes {
@@ -537,6 +568,62 @@ pub fn tlv_structured_universe(thorough: bool) -> ListUniverse {
             cases.push(sec.clone());
             sec.pop();
             cases.push(sec);
+        }
+    }
+    // raw sections beyond a u16 that hold *many* items (only reachable through TypeLengthValues::from): 6554 ten-byte
+    // items (65 540 bytes), 25 000 items with 0..=2-byte values, and 24 000 such items followed by an overrun
+    {
+        let mut sec = Vec::with_capacity(66000);
+        for i in 0..6554usize {
+            sec.extend_from_slice(&[(i % 200 + 1) as u8, 0, 7]);
+            sec.extend((0..7).map(|j| (i + j) as u8));
+        }
+        cases.push(sec);
+        let mut many = Vec::with_capacity(110000);
+        for i in 0..25000usize {
+            let l = i % 3;
+            many.extend_from_slice(&[(i % 251 + 1) as u8, 0, l as u8]);
+            many.extend((0..l).map(|j| (i * 3 + j) as u8));
+        }
+        let cut: usize = (0..24000usize).map(|i| 3 + i % 3).sum();
+        let mut over = many[..cut].to_vec();
+        over.extend_from_slice(&[0xee, 0x30, 0x39, 1, 2]);
+        cases.push(many);
+        cases.push(over);
+    }
+    // runs of 9..=24 items whose value lengths vary from item to item (four length patterns, none periodic in 8 or 16),
+    // whole, cut by one byte, and with the last item declaring one byte too many: look-ahead windows, batch
+    // validation and per-item caches go wrong at the 9th / 17th item, and only when neighbouring lengths differ
+    for n in 9..=24usize {
+        for pat in 0..4usize {
+            let mut sec = Vec::new();
+            for i in 0..n {
+                let l = match pat {
+                    0 => (i * 7 + 3) % 5,
+                    1 => (i * i + 1) % 11,
+                    2 => if i % 3 == 0 { 0 } else { i },
+                    _ => (n - i) % 6 + (i / 8),
+                };
+                sec.push(((i * 5 + pat) % 250 + 1) as u8);
+                sec.push(0);
+                sec.push(l as u8);
+                sec.extend((0..l).map(|j| (j as u8).wrapping_mul(9).wrapping_add(i as u8)));
+            }
+            cases.push(sec.clone());
+            cases.push(sec[..sec.len() - 1].to_vec());
+            let mut over = sec.clone();
+            let last_head = {
+                // position of the last item's length byte
+                let mut pos = 0usize;
+                let mut lastp = 0usize;
+                while pos + 3 <= sec.len() {
+                    lastp = pos;
+                    pos += 3 + (((sec[pos + 1] as usize) << 8) | sec[pos + 2] as usize);
+                }
+                lastp
+            };
+            over[last_head + 2] = over[last_head + 2].wrapping_add(1);
+            cases.push(over);
         }
     }
     // sections that are protocol artefacts themselves: a complete v2 header (every valid control pair, with its address
